@@ -48,6 +48,7 @@ Proof.
   exact (cut_stream_lemma M marshal unmarshal_into compress decompress zero
            codec_roundtrip empty_is_zero compress_roundtrip compress_nonempty).
 Qed.
+Print Assumptions cut_stream.
 
 (* Client side, any protocol given by its three hooks: a response body
    [frames(msgs) ++ terminator envelope] cut strictly before its end delivers a
@@ -74,6 +75,7 @@ Proof.
            codec_roundtrip empty_is_zero compress_roundtrip compress_nonempty
            on_special on_eof on_error Herr).
 Qed.
+Print Assumptions cut_response.
 End C04.
 Print Assumptions cut_stream.
 Print Assumptions cut_response.
@@ -97,6 +99,7 @@ Print Assumptions success_needs_terminator.
 Theorem inband_eof_is_failure :
   connect_on_eof = Failed 13 /\ grpcweb_on_eof = Failed 13.
 Proof. split; reflexivity. Qed.
+Print Assumptions inband_eof_is_failure.
 
 (* The hooks meet the hypotheses. *)
 Theorem hooks_meet_hypotheses :
@@ -115,3 +118,4 @@ Theorem connect_stream_no_terminator_refuted_on_pinned_tree :
       (recv_n_f bytes (fun d _ => Some d) (fun _ => None) [] 2 0 false (body, CleanEOF))
     = ([[x08; x09]], Some Clean).
 Proof. exact connect_stream_no_terminator_refuted. Qed.
+Print Assumptions connect_stream_no_terminator_refuted_on_pinned_tree.
